@@ -121,7 +121,9 @@ def classify_volume(case):
 def strat_cond(draw, tier):
     return {"theta": draw(_f(0.2, 5.0)), "eta": draw(st.one_of(st.sampled_from([0.0, 1.0]), _f(0.0, 1.0))),
             "eps": draw(st.sampled_from([-1, 1])) * _mag(draw, -3, 3),
-            "xs": sorted({draw(st.sampled_from([-1, 1])) * _mag(draw, -5, 5) for _ in range(8)}),
+            # (0.0 itself is a legitimate argument: F is right-continuous there, between its one-sided limits)
+            "xs": sorted({draw(st.sampled_from([-1, 1])) * _mag(draw, -5, 5) for _ in range(8)} |
+                         ({0.0} if draw(st.booleans()) else set())),
             "ps": [draw(st.floats(0.01, 0.99)) for _ in range(4)]}
 
 
@@ -139,6 +141,12 @@ def body_cond(case):
         return out
     if any(v2 < v1 - 1e-12 for v1, v2 in zip(vals, vals[1:])):
         out.append(Violation("C11/clayton/conditional-distribution/not-non-decreasing", f"{list(zip(xs, vals))}; {detail}"))
+    if 0.0 in xs:
+        f0 = vals[xs.index(0.0)]
+        f_plus = float(cop.conditional_distribution(eps, np.array([1e-300]))[0])
+        if abs(f0 - f_plus) > 1e-9:
+            out.append(Violation("C11/clayton/conditional-distribution/value-at-zero-is-not-the-right-limit",
+                                 f"F(0)={f0!r}, F(0+)={f_plus!r}; {detail}"))
     lo = float(cop.conditional_distribution(eps, np.array([-1e300]))[0])
     hi = float(cop.conditional_distribution(eps, np.array([1e300]))[0])
     if abs(lo) > 1e-9 or abs(hi - 1) > 1e-9:
@@ -147,7 +155,7 @@ def body_cond(case):
     for x, v in zip(xs, vals):
         if 1e-9 < v < 1 - 1e-9:
             back = float(np.atleast_1d(cop.inverse_conditional_distribution(np.array(eps), np.array([v])))[0])
-            if not math.isfinite(back) or abs(back - x) > 1e-6 * abs(x):
+            if not math.isfinite(back) or abs(back - x) > 1e-6 * abs(x) or x == 0:
                 # F is flat across the jump at 0: accept any point with the same F value
                 if math.isfinite(back) and back != 0:
                     v2 = float(cop.conditional_distribution(eps, np.array([back]))[0])
